@@ -210,8 +210,26 @@ fn plain(page: &str) -> String {
     page.replace("\\fB", " ").replace("\\fI", " ").replace("\\fR", " ").replace("\\-", "-")
 }
 
+/// The page without its NAME / SYNOPSIS / DESCRIPTION sections: the listings.
+fn listings(page: &str) -> String {
+    let mut out = String::new();
+    let mut keep = false;
+    for line in page.lines() {
+        if let Some(title) = line.strip_prefix(".SH ") {
+            keep = !matches!(title.trim_matches('"'), "NAME" | "SYNOPSIS" | "DESCRIPTION");
+        }
+        if keep {
+            out.push_str(line);
+            out.push('\n');
+        }
+    }
+    out
+}
+
 fn coverage(level: &CmdSpec, cmd: &clap::Command, page: &str, ctx: &mut Ctx) -> Verdict {
     let p = plain(page);
+    // every visible argument has an entry in a listing section, not just a mention in the synopsis
+    let lst = plain(&listings(page));
     let display = level.display_name.clone().unwrap_or_else(|| {
         cmd.get_display_name().map(|s| s.to_owned()).unwrap_or_else(|| level.name.clone())
     });
@@ -242,12 +260,28 @@ fn coverage(level: &CmdSpec, cmd: &clap::Command, page: &str, ctx: &mut Ctx) -> 
                 level.name,
                 page
             );
+            ensure!(
+                has_token(&lst, &format!("--{l}")),
+                "man:option-not-listed",
+                "--{} is named in the synopsis only, it has no entry in the option listings of {:?}\n{}",
+                l,
+                level.name,
+                page
+            );
         }
         if let Some(s) = a.short {
             ensure!(
                 has_token(&p, &format!("-{s}")),
                 "man:option-missing",
                 "-{} does not appear in the page of {:?}\n{}",
+                s,
+                level.name,
+                page
+            );
+            ensure!(
+                has_token(&lst, &format!("-{s}")),
+                "man:option-not-listed",
+                "-{} is named in the synopsis only, it has no entry in the option listings of {:?}\n{}",
                 s,
                 level.name,
                 page
